@@ -12,7 +12,7 @@ from proc_l1 import L1, op_line, cfg_line, gen_cfg, gen_ops
 ID = 'C01'
 LEAN_PROPS = 'SupervisorModel.Props.C01'
 DRIVER = 'drv_c01'
-GENERATED = ['Proc']
+GENERATED = ['Proc', 'Sup']
 TRUSTED = [
     "modelled, not verified: one clock reading per top-level operation (nested time.time() calls read the same value)",
     "the system-call seam (fork/kill/pipes/stat) is replaced by scripted answers; the child side of fork is Model/Child (C18)",
@@ -134,6 +134,9 @@ def replay(ctx, data):
 TECHNIQUE = "Lean 4 invariant/induction theorems over a Subprocess model whose guards, timers and asserted state lists are regenerated from process.py; differential correspondence against the real Subprocess/ProcessGroup/rpcinterface"
 LEVEL_TEXT = ("every operation (transition, reap, start/stop/signal RPC, group stop) from every process state is proved to emit a "
               "contiguous chain of PROCESS_STATE notifications along documented edges ending in the reported state, for all "
-              "configurations, clock readings and environment answers, lifted to all histories by induction")
-LEVEL_NOTE = "trusts Lean's kernel, extract.py, one clock reading per operation, the scripted seam; the daemon-level lifting (which operations the main loop performs) is C02/C05's model"
+              "configurations, clock readings and environment answers, lifted to all histories of one process by induction, and to every run of the "
+              "daemon model (pass_chain / passes_chain / passes_chain_init: for every process object that exists throughout, the notifications the daemon "
+              "emits for it over any sequence of main-loop passes, RPCs, reaps and group changes replay from its old to its new state along documented edges; "
+              "pass_chain_born: an object added at run time starts STOPPED; removeGroup_silent/_stopped)")
+LEVEL_NOTE = "trusts Lean's kernel, extract.py, one clock reading per operation, the scripted seam; the daemon-level lifting uses Model/Sup.lean (tied to the real main loop by the C02/C05/C06/C13 correspondence runs)"
 DESIGN_REF = "DESIGN.md section 6, C01"
